@@ -118,6 +118,7 @@ func checkC06(c *Ctx) {
 	c06NilMapWrite(c)
 	c06DeliverNonNil(c)
 	c06DisconnectObserved(c)
+	c06ReaderNotThrottled(c)
 	// a lock shared by all sessions held across a write that the peer paces stalls every other client
 	if _, guard := streamTableAndGuard(c); guard != "" {
 		streamWriteNotUnder(c, "R-table-lock-free-write", guard, "listening-stream table")
@@ -562,11 +563,50 @@ func interfaceKeysHashable(c *Ctx, fns []*ssa.Function, rule string) {
 		return types.Comparable(t)
 	}
 	hashable = func(fn *ssa.Function, v ssa.Value, d int) bool {
-		if d > 3 {
+		if d > 8 {
 			return false
 		}
 		switch x := v.(type) {
 		case *ssa.Const:
+			return true
+		case *ssa.UnOp:
+			// a key record built in place: every interface-typed member it is given is hashable
+			al, ok := x.X.(*ssa.Alloc)
+			if !ok || x.Op != token.MUL {
+				return false
+			}
+			if _, isStruct := x.Type().Underlying().(*types.Struct); !isStruct {
+				return false
+			}
+			for _, r := range *al.Referrers() {
+				fa, ok := r.(*ssa.FieldAddr)
+				if !ok {
+					continue
+				}
+				for _, u := range *fa.Referrers() {
+					if st, ok := u.(*ssa.Store); ok && st.Addr == ssa.Value(fa) && keyHasInterface(st.Val.Type()) {
+						if !hashable(fn, st.Val, d+1) {
+							return false
+						}
+					}
+				}
+			}
+			return true
+		case *ssa.Call:
+			// a library function that makes the key (or canonicalises an id): every value it returns is hashable
+			sc := ir.StaticCallee(x)
+			if sc == nil || !c.P.IsLib(sc) || sc.Blocks == nil || sc.Signature.Results().Len() != 1 {
+				return false
+			}
+			for _, b := range sc.Blocks {
+				if ret, ok := b.Instrs[len(b.Instrs)-1].(*ssa.Return); ok {
+					for _, res := range ir.Results(ret) {
+						if !hashable(sc, res, d+1) {
+							return false
+						}
+					}
+				}
+			}
 			return true
 		case *ssa.MakeInterface:
 			return concreteOK(x.X.Type())
@@ -631,7 +671,7 @@ func interfaceKeysHashable(c *Ctx, fns []*ssa.Function, rule string) {
 			if !ok {
 				return
 			}
-			if _, isIface := mt.Key().Underlying().(*types.Interface); !isIface {
+			if !keyHasInterface(mt.Key()) {
 				return
 			}
 			n++
@@ -644,6 +684,23 @@ func interfaceKeysHashable(c *Ctx, fns []*ssa.Function, rule string) {
 	if n == 0 {
 		c.R.Hold(rule, "no map keyed by an interface type on server paths", "", "")
 	}
+}
+
+// keyHasInterface: a map key of this type is hashed through a dynamic type — an interface, or a record/array holding one.
+func keyHasInterface(t types.Type) bool {
+	switch u := t.Underlying().(type) {
+	case *types.Interface:
+		return true
+	case *types.Struct:
+		for i := 0; i < u.NumFields(); i++ {
+			if keyHasInterface(u.Field(i).Type()) {
+				return true
+			}
+		}
+	case *types.Array:
+		return keyHasInterface(u.Elem())
+	}
+	return false
 }
 
 // nilableMembers (R-nil-member): a member of interface or pointer type that some function explicitly sets to nil after
